@@ -1,6 +1,5 @@
 // Specs and contract harnesses for src/weak/weak_counter_marker.rs.
 // Full-domain symbolic 16-bit word: complete, loop-free.
-#![allow(dead_code, unused_imports)]
 use super::*;
 
 pub(crate) fn any_wcm() -> WeakCounterMarker {
